@@ -88,6 +88,9 @@ def _gen_seq(rng, small=False):
             d['spq'] = 4
         else:
             d['sps'] = 100
+    if rng.random() < 0.3:
+        # the input is itself a piece of an earlier extraction: it already carries a subsequence_info
+        d['sub'] = [rng.randint(0, 12) * Q + rng.choice([0, 0, 1, 1 << 20]), rng.randint(0, 12) * Q]
     return d
 
 
@@ -112,8 +115,41 @@ def _gen_ts(rng, d, allow_bad=True):
     return ts
 
 
+def _second(rng):
+    """Parameters of the second cut of a two-step case; split times are given as eighths of the
+    intermediate piece's total_time (resolved once the piece is known)."""
+    r = rng.random()
+    if r < 0.35:
+        k = rng.choice([2, 3, 3, 4])
+        return {'op': 'extract', 'eighths': sorted(rng.randint(0, 8) for _ in range(k)), 'pres': None}
+    if r < 0.6:
+        return {'op': 'split_hop', 'hop': rng.choice([Q, 2 * Q, 3 * Q, 5 * Q]), 'skip': int(rng.random() < 0.5)}
+    if r < 0.8:
+        return {'op': 'split_silence', 'gap': rng.choice([0, Q, 2 * Q, 4 * Q])}
+    return {'op': 'split_tc', 'skip': int(rng.random() < 0.5)}
+
+
+def _two_step(rng, d):
+    r = rng.random()
+    if r < 0.4:
+        first = {'op': 'split_hop', 'hop': rng.choice([2 * Q, 3 * Q, 4 * Q, 6 * Q]), 'skip': int(rng.random() < 0.3)}
+    elif r < 0.6:
+        first = {'op': 'split_tc', 'skip': int(rng.random() < 0.3)}
+    elif r < 0.8:
+        first = {'op': 'split_silence', 'gap': rng.choice([0, Q, 2 * Q])}
+    else:
+        ts = _gen_ts(rng, d, allow_bad=False)
+        first = {'op': 'extract', 'ts': ts, 'pres': None}
+    return {'op': 'two_step', 'input': {'seq': d, 'first': first, 'pick': rng.randint(0, 7), 'second': _second(rng)}}
+
+
 def _one(rng, small=False):
     d = _gen_seq(rng, small)
+    if rng.random() < 0.12:
+        d['spq'] = d['sps'] = 0
+        if d['total'] // (2 * Q) > 48:
+            d['total'] = 96 * Q
+        return _two_step(rng, d)
     r = rng.random()
     if r < 0.40:
         pres = None
@@ -234,6 +270,15 @@ def corpus():
         {'op': 'split_silence', 'input': {'seq': base, 'gap': 0}},
         # zero-length note exactly at total_time after a silence
         {'op': 'split_silence', 'input': {'seq': _d([_n(60, 0, q), _n(61, 8 * q, 8 * q)], total=8 * q), 'gap': q}},
+        # inputs that are themselves pieces of an earlier cut (subsequence_info already set)
+        {'op': 'extract', 'input': {'seq': dict(base, sub=[5 * q, 2 * q]), 'ts': [q, 6 * q, 12 * q], 'pres': None}},
+        {'op': 'split_hop', 'input': {'seq': dict(base, sub=[3 * q, 0]), 'hop': 4 * q, 'skip': 0}},
+        {'op': 'two_step', 'input': {'seq': base, 'first': {'op': 'split_tc', 'skip': 0}, 'pick': 1,
+                                     'second': {'op': 'split_hop', 'hop': q, 'skip': 0}}},
+        {'op': 'two_step', 'input': {'seq': base, 'first': {'op': 'split_hop', 'hop': 4 * q, 'skip': 0}, 'pick': 2,
+                                     'second': {'op': 'extract', 'eighths': [0, 2, 8], 'pres': None}}},
+        {'op': 'two_step', 'input': {'seq': base, 'first': {'op': 'extract', 'ts': [2 * q, 9 * q, 12 * q], 'pres': None},
+                                     'pick': 0, 'second': {'op': 'split_silence', 'gap': q}}},
     ]
     return out
 
@@ -253,7 +298,7 @@ def canon_piece(w):
 
 
 def canon_trim(w):
-    return [sorted(w[0]), w[8], w[1], w[2], w[3], w[4], w[5], w[6]]
+    return [sorted(w[0]), w[8], w[1], w[2], w[3], w[4], w[5], w[6], list(w[12])]
 
 
 def _texts_wire(d):
@@ -263,9 +308,8 @@ def _texts_wire(d):
     return d
 
 
-def _call(case, ns):
+def _call(op, a, ns):
     from note_seq import sequences_lib as sl
-    op, a = case['op'], case['input']
     f = nsio.t2f
     if op == 'extract':
         return sl._extract_subsequences(ns, [f(t) for t in a['ts']], preserve_control_numbers=a['pres'])
@@ -291,6 +335,15 @@ STATS = {'cases': 0, 'exceptions': {}, 'cut_on_event_time': 0, 'cases_with_cuts'
 def _stats(case, out):
     op, a = case['op'], case['input']
     STATS['cases'] += 1
+    if a['seq'].get('sub', [0, 0]) != [0, 0]:
+        STATS['input_with_subsequence_info'] = STATS.get('input_with_subsequence_info', 0) + 1
+    if op == 'two_step':
+        STATS['two_step'] = STATS.get('two_step', 0) + 1
+        if out[0] == 'OK' and out[1] and any(p[8][0] > 0 for p in out[1]):
+            pass
+        if out[0] != 'NO-PIECE':
+            STATS['two_step_resolved'] = STATS.get('two_step_resolved', 0) + 1
+        return
     if out[0] == 'EXC':
         STATS['exceptions'][out[1]] = STATS['exceptions'].get(out[1], 0) + 1
         return
@@ -331,12 +384,47 @@ def impl(case):
     return out
 
 
-def _impl(case):
+_RESOLVED = {}
+
+
+def _resolve(case):
+    """(op, args, input proto) of the call whose result is observed.  For a two-step case the input is a
+    piece produced by the REAL code from the first cut (so it carries that cut's subsequence_info), and
+    the second cut's split times are fractions of that piece's total_time."""
     op, a = case['op'], case['input']
-    ns = nsio.to_proto(a['seq'])
+    if op != 'two_step':
+        return op, a, nsio.to_proto(a['seq'])
+    hit = _RESOLVED.get(id(case))
+    if hit is not None and hit[0] is case:
+        r = hit[1]
+    else:
+        first = a['first']
+        try:
+            pieces = _call(first['op'], first, nsio.to_proto(a['seq']))
+            r = ('PIECE', pieces[a['pick'] % len(pieces)].SerializeToString(deterministic=True)) if len(pieces) else ('EMPTY',)
+        except Exception as e:  # noqa
+            r = ('EXC1', type(e).__name__)
+        if len(_RESOLVED) > 400000:
+            _RESOLVED.clear()
+        _RESOLVED[id(case)] = (case, r)
+    if r[0] != 'PIECE':
+        return None, r, None
+    from note_seq.protobuf import music_pb2
+    ns = music_pb2.NoteSequence.FromString(r[1])
+    a2 = dict(a['second'])
+    if 'eighths' in a2:
+        total = nsio.f2t(ns.total_time)
+        a2['ts'] = [total * k // 8 for k in a2['eighths']]
+    return a2['op'], a2, ns
+
+
+def _impl(case):
+    op, a, ns = _resolve(case)
+    if op is None:
+        return ['NO-PIECE'] + list(a)
     before = ns.SerializeToString(deterministic=True)
     try:
-        r = _call(case, ns)
+        r = _call(op, a, ns)
     except Exception as e:  # noqa
         name = type(e).__name__
         if op == 'split_hop' and a['hop'] == 0:
@@ -351,8 +439,10 @@ def _impl(case):
 
 
 def model_input(case):
-    op, a = case['op'], case['input']
-    w = nsio.to_wire(nsio.to_proto(a['seq']))
+    op, a, ns = _resolve(case)
+    if op is None:
+        return None
+    w = nsio.to_wire(ns)
     if op == 'extract':
         return [1, w, a['ts'], int(a['pres'] is None), a['pres'] or []]
     if op in ('extract1', 'trim'):
@@ -367,8 +457,12 @@ def model_input(case):
         return [7, w, a['gap']]
 
 
+def _op2(case):
+    return case['input']['second']['op'] if case['op'] == 'two_step' else case['op']
+
+
 def model_output(case, m):
-    op = case['op']
+    op = _op2(case)
     if m[0] == -1000:
         return ['EXC', ERR.get(m[1], 'MODEL-ERR-%d' % m[1])]
     if op == 'trim':
@@ -402,9 +496,8 @@ def _finish(points, total):
     return points
 
 
-def expected_points(case, w):
+def expected_points(op, a, w):
     """The split points the property prescribes, from the input alone."""
-    op, a = case['op'], case['input']
     notes, total = w[0], w[8]
     if op == 'extract':
         return list(a['ts'])
@@ -498,8 +591,10 @@ def check_piece(w, pres, a, b, p, i):
 
 
 def oracle(case, io):
-    op, a = case['op'], case['input']
-    w = nsio.to_wire(nsio.to_proto(a['seq']))
+    if io[0] == 'NO-PIECE':
+        return None                 # the first cut gave no piece to cut again; it is judged by the one-step cases
+    op, a, ns = _resolve(case)
+    w = nsio.to_wire(ns)
     if io[0] == 'HARNESS-EXC':
         return {'kind': 'result-not-representable', 'detail': io[1:]}
     if op == 'trim':
@@ -514,14 +609,14 @@ def oracle(case, io):
             return {'kind': 'trim-notes-wrong', 'interval': [a['a'], a['b']]}
         if got[1] != min(w[8], a['b']):
             return {'kind': 'trim-total-time-wrong'}
-        if got[2:] != [w[1], w[2], w[3], w[4], w[5], w[6]]:
+        if got[2:] != [w[1], w[2], w[3], w[4], w[5], w[6], list(w[12])]:
             return {'kind': 'trim-touched-other-fields'}
         if io[2] != 1:
             return {'kind': 'input-modified', 'op': op}
         return None
     if op == 'split_hop' and a['hop'] == 0:
         return None if io[0] == 'EXC' else {'kind': 'zero-hop-accepted'}
-    pts = expected_points(case, w)
+    pts = expected_points(op, a, w)
     if op in ('extract', 'extract1') or len(pts) > 1:
         exc = expected_exception(w, pts)
     else:
@@ -534,9 +629,26 @@ def oracle(case, io):
         return {'kind': 'invalid-arguments-accepted', 'expected': exc, 'op': op, 'points': pts}
     pieces = [io[1]] if op == 'extract1' else io[1]
     npieces = 1 if op == 'extract1' else max(0, len(pts) - 1)
-    if len(pieces) != npieces or [p[8][0] for p in pieces] != pts[:npieces]:
-        return {'kind': 'split-points-differ', 'op': op, 'expected_points': pts,
-                'got_starts': [p[8][0] for p in pieces]}
+    starts = [p[8][0] for p in pieces]
+    if len(pieces) != npieces:
+        return {'kind': 'split-points-differ', 'op': op, 'expected_points': pts, 'got_starts': starts}
+    if starts != pts[:npieces]:
+        # the start offsets are the only place where the chosen split points show.  For the extract ops the
+        # points are the caller's, so a wrong offset is a wrong subsequence_info; for the splitters ask the code
+        # again on the same input without its own (stale) subsequence_info to tell the two apart.
+        info_only = op in ('extract', 'extract1')
+        if not info_only and list(w[12]) != [0, 0]:
+            try:
+                ns2 = type(ns)(); ns2.CopyFrom(ns); ns2.ClearField('subsequence_info')
+                again = [nsio.f2t(q.subsequence_info.start_time_offset) for q in _call(op, a, ns2)]
+                info_only = again == pts[:npieces]
+            except Exception:  # noqa
+                info_only = False
+        if info_only:
+            i = [x != y for x, y in zip(starts, pts)].index(True)
+            return {'kind': 'subsequence-info-wrong', 'op': op, 'piece': i, 'interval': [pts[i], pts[i + 1]],
+                    'got': pieces[i][8], 'want_start_offset': pts[i], 'input_subsequence_info': list(w[12])}
+        return {'kind': 'split-points-differ', 'op': op, 'expected_points': pts, 'got_starts': starts}
     if op in ('split_hop', 'split_tc', 'split_silence') and not all(x < y for x, y in zip(pts[:-1], pts[1:])):
         if not (op == 'split_silence' and (a['gap'] < 0 or any(n[3] < n[2] for n in w[0]))):
             return {'kind': 'split-points-not-increasing', 'op': op, 'points': pts}
@@ -557,7 +669,7 @@ def oracle(case, io):
 def nontrivial(case, io):
     if io[0] != 'OK':
         return False
-    op, a = case['op'], case['input']
+    op, a = _op2(case), case['input']
     if op == 'trim':
         return any(n[3] > a['b'] > n[2] >= a['a'] for n in a['seq']['notes'])
     pieces = [io[1]] if op == 'extract1' else io[1]
@@ -576,6 +688,8 @@ def shrink(case):
     a = case['input']
     for d in nsio.shrink_desc(a['seq']):
         yield {'op': case['op'], 'input': dict(a, seq=d)}
+    if a['seq'].get('sub', [0, 0]) != [0, 0]:
+        yield {'op': case['op'], 'input': dict(a, seq=dict(a['seq'], sub=[0, 0]))}
     for f in ('ts', 'times'):
         if f in a:
             for i in range(len(a[f])):
